@@ -26,7 +26,12 @@ Round 2 (patches/C05-0[45]-*.diff; `Cfg.round1` = fixA..C only):
         (before: it unlocked in between — state `exitVol false` — and execute() still counted it,
         spawned nobody, and the new task was never executed).
 
-Condition variable: `waiting` workers are the waiter set.  `wake w` moves one waiter to `woken`
+Condition variable: `waiting` workers are the waiter set.  The API steps `execute`, `cancel`, `status`, `snapshot` carry no caller: they are the critical sections of the
+calls and may be issued by ANY thread — the loop thread, a completion callback, or a task body running on a
+worker of the same pool (re-entrant use); the mutex makes them atomic regardless of the caller, and `pend`
+counts the notify_one() calls still owed by concurrent execute() callers.  The only caller assumption left in
+`valid` is that no API call overlaps cleanup() (`inCleanup`, and `pend = 0` when cleanup starts).
+`wake w` moves one waiter to `woken`
 at any time (covers notify_one, notify_all and spurious wake-ups); `notifyAll` (cleanup) wakes
 all current waiters at once — the only wake-up the deadlock theorem relies on.  Two reads of the
 stop flag inside one critical section (predicate, then the check after wait) are merged into
@@ -112,7 +117,9 @@ structure State where
   cab      : List Nat := []          -- threads_cabinet
   vec      : List Nat := []          -- cleanup()'s local thread_vec
   exiting  : List Nat := []          -- self-exited workers whose join is still queued in the loop (fixD)
-  pend     : Bool := false           -- execute() has returned from its critical section, notify_one() not yet called
+  pend     : Nat := 0                -- execute() calls that have left their critical section and not yet called notify_one()
+                                     -- (a counter: execute may be called concurrently from several threads — loop thread,
+                                     -- task bodies on worker threads, completion callbacks)
   pc       : Nat → PC := fun _ => .exited
   nW       : Nat := 0                -- workers ever created
   lock     : Bool := false           -- mutex held across a step boundary (only in `aboutToWait`)
@@ -216,18 +223,18 @@ def nextJoin (s : State) : Option Nat :=
 def noWaiter (s : State) : Bool := (List.range s.nW).all (fun w => s.pc w != .waiting)
 
 def valid (s : State) : Step → Bool
-  | .execute _ _ => !s.lock && !inCleanup s && !s.pend
-  | .cancel t => !s.lock && !inCleanup s && !s.pend && decide (t < s.nextTask)
-  | .status t => !s.lock && !inCleanup s && !s.pend && decide (t < s.nextTask)
-  | .snapshot => !s.lock && !inCleanup s && !s.pend
-  | .cleanup1 => !s.lock && !s.phase1 && !s.pend
-  | .notifyOne (some w) => s.pend && decide (w < s.nW) && s.pc w == .waiting
-  | .notifyOne none => s.pend && noWaiter s
+  | .execute _ _ => !s.lock && !inCleanup s
+  | .cancel t => !s.lock && !inCleanup s && decide (t < s.nextTask)
+  | .status t => !s.lock && !inCleanup s && decide (t < s.nextTask)
+  | .snapshot => !s.lock && !inCleanup s
+  | .cleanup1 => !s.lock && !s.phase1 && decide (s.pend = 0)
+  | .notifyOne (some w) => decide (0 < s.pend) && decide (w < s.nW) && s.pc w == .waiting
+  | .notifyOne none => decide (0 < s.pend) && noWaiter s
   | .setStop => s.phase1 && !s.stop && (!s.cfg.fixB || !s.lock)
   | .notifyAll => s.stop && !s.notified
   | .join w => s.notified && !s.done && nextJoin s == some w && s.pc w == .exited
   | .cleanupRet => s.notified && !s.done && (nextJoin s).isNone
-  | .loopRun => !inCleanup s && !s.pend && (match s.loopQ with
+  | .loopRun => !inCleanup s && (match s.loopQ with
       | [] => false
       | .joinW w :: _ => (s.cfg.fixD && !s.exiting.contains w) || s.pc w == .exited
       | _ => true)
@@ -246,7 +253,7 @@ def step (s : State) : Step → State
   | .execute prio cb =>
     if s.done then s else            -- `is_ready` false: null token, nothing happens
     let t : Tk := { id := s.nextTask, lvl := levelOf prio, cb := cb }
-    let s1 := { s with undo := s.undo ++ [t], nextTask := s.nextTask + 1, pend := true }
+    let s1 := { s with undo := s.undo ++ [t], nextTask := s.nextTask + 1, pend := s.pend + 1 }
     if s1.undo.length > s1.idle then
       if s1.cab.length < s1.cfg.max then
         setPc { s1 with cab := s1.cab ++ [s1.nW], nW := s1.nW + 1 } s1.nW .start     -- createWorker
@@ -268,8 +275,8 @@ def step (s : State) : Step → State
   | .notifyAll =>
     { s with notified := true, pc := fun w => if s.pc w == .waiting then .woken else s.pc w }
   | .join w => { s with joined := w :: s.joined, exiting := s.exiting.filter (· != w) }
-  | .notifyOne (some w) => setPc { s with pend := false } w .woken
-  | .notifyOne none => { s with pend := false }
+  | .notifyOne (some w) => setPc { s with pend := s.pend - 1 } w .woken
+  | .notifyOne none => { s with pend := s.pend - 1 }
   | .cleanupRet => { s with done := true }
   | .loopRun =>
     match s.loopQ with
